@@ -90,6 +90,13 @@ func verifHarness_C11_caller(api int) {
 	if api >= 3 {
 		fr = &frame.V2Frame{SequenceNumber: 9, SystemID: 8, ComponentID: 7, Message: msg}
 	}
+	v1frame := api >= 6
+	if v1frame {
+		// a version 1 frame routed by a version 2 node keeps its own version: base layout, no truncation
+		fr = &frame.V1Frame{SequenceNumber: 9, SystemID: 8, ComponentID: 7, Message: msg}
+		wantPayload = full[:spec.SizeNormal()]
+		api -= 3
+	}
 	var err error
 	switch api {
 	case 0:
@@ -130,10 +137,18 @@ func verifHarness_C11_caller(api int) {
 	if api < 3 {
 		raw, _ = what.(*message.MessageRaw)
 	} else {
-		f2, ok := what.(*frame.V2Frame)
-		verifAssert(ok && f2.SequenceNumber == 9 && f2.SystemID == 8 && f2.ComponentID == 7, "C11/K4/forwarded-frame-keeps-header")
-		if ok {
-			raw, _ = f2.Message.(*message.MessageRaw)
+		if v1frame {
+			f1, ok := what.(*frame.V1Frame)
+			verifAssert(ok && f1.SequenceNumber == 9 && f1.SystemID == 8 && f1.ComponentID == 7, "C11/K4/forwarded-frame-keeps-header")
+			if ok {
+				raw, _ = f1.Message.(*message.MessageRaw)
+			}
+		} else {
+			f2, ok := what.(*frame.V2Frame)
+			verifAssert(ok && f2.SequenceNumber == 9 && f2.SystemID == 8 && f2.ComponentID == 7, "C11/K4/forwarded-frame-keeps-header")
+			if ok {
+				raw, _ = f2.Message.(*message.MessageRaw)
+			}
 		}
 	}
 	verifAssert(raw != nil, "C11/K4/encoded-in-caller")
